@@ -134,6 +134,64 @@ func c07Burst(c *Ctx, name string, threads int, expired bool, b vsched.Bounds, w
 	}
 }
 
+// c07Straddle: a burst that begins in the last second of the hit-for-pass period; the clock may step over the end of
+// the period at any clock read of any request. Requests labelled hitForPass went to the origin on their own; of the
+// others (after the end) exactly one probes, the rest wait for it or hit its result.
+func c07Straddle(c *Ctx, name string, threads int, b vsched.Bounds) Sched {
+	cfg := env.BasicConfig(config.CacheConfig{HitForPass: "2s"})
+	return Sched{
+		Name:   name,
+		Opt:    vsched.Options{Ticks: []int64{1}},
+		Bounds: b,
+		Setup: func() ([]func(), func(*vsched.Exec) *vsched.Violation, func() string) {
+			e := getEnv(cfg, "hfp2s")
+			freshCaches(cfg)
+			vtime.Set(vtime.Base)
+			e.Respond = func(oc *env.OriginCall) env.OriginResp { return env.Uncacheable(oc, "pro") }
+			e.Do(env.Req{URI: "/k1", Rid: "pro"})
+			vtime.Add(2) // last second of the period
+			e.Events()
+			vsched.ClockStart = vtime.Get()
+			e.Respond = func(oc *env.OriginCall) env.OriginResp { return env.Cacheable(oc, 50, "p") }
+			var bodies []func()
+			for i := 0; i < threads; i++ {
+				i := i
+				bodies = append(bodies, func() { e.Do(env.Req{URI: "/k1", Rid: fmt.Sprintf("t%d", i)}) })
+			}
+			var an *analysis
+			check := func(x *vsched.Exec) *vsched.Violation {
+				an = analyze(e.Events())
+				if x.Deadlock || x.Livelock || len(x.Panics) > 0 {
+					return nil
+				}
+				if v := an.selfCheck(); v != nil {
+					return v
+				}
+				if v := an.labelTruth(); v != nil {
+					return v
+				}
+				nf, np := 0, 0
+				for _, rid := range an.Order {
+					switch an.Reqs[rid].Res.XStatus {
+					case "fetching":
+						nf++
+					case "hitForPass":
+						np++
+					case "hit":
+					default:
+						return &vsched.Violation{Sig: "label-" + an.Reqs[rid].Res.XStatus + "-across-period-end", Msg: fmt.Sprintf("request %s labelled %s", rid, an.Reqs[rid].Res.XStatus)}
+					}
+				}
+				if nf > 1 || len(an.Calls) != nf+np {
+					return &vsched.Violation{Sig: "probe-not-single", Msg: fmt.Sprintf("burst across the end of the hit-for-pass period: %d probing (fetching) requests, %d passed, %d origin calls (expected at most one probe and one origin call per probing or passed request)", nf, np, len(an.Calls))}
+				}
+				return nil
+			}
+			return bodies, check, func() string { return an.summary() }
+		},
+	}
+}
+
 // c07EvictedInFlight: a store-backed cache whose single shard holds one entry. The fetch of an uncacheable key
 // is in flight while a request for another key pushes its entry out of the shard. Once everything has ended, the
 // next two requests for the key fall into the hit-for-pass period (the marker was persisted): both must pass.
@@ -354,6 +412,8 @@ func init() {
 		c.RunSched(c07Burst(c, "period-burst3-witness", 3, false, vsched.Bounds{Preempt: 0, Tick: 0, Data: 0, Total: 0}, true))
 		c.RunSched(c10Waiters(c, "cold-burst-uncacheable-store-faults", true, vsched.Bounds{Preempt: pre, Tick: 0, Data: 2, Total: pre + 1}))
 		c.RunSched(c07EvictedInFlight(c, "evicted-in-flight-store", vsched.Bounds{Preempt: pre, Tick: 0, Data: -1, Total: -1}))
+		c.RunSched(c10SlowStoreOther(c, "passed-request-vs-store-call-of-other-key", vsched.Bounds{Preempt: pre, Tick: 0, Data: 0, Total: -1}, true))
+		c.RunSched(c07Straddle(c, "burst3-across-period-end", 3, vsched.Bounds{Preempt: pre, Tick: 1, Data: -1, Total: pre + 1}))
 		c.RunSched(c07Burst(c, "probe-burst3", 3, true, vsched.Bounds{Preempt: pre, Tick: 0, Data: -1, Total: -1}, false))
 		if c.Thorough() {
 			c.RunSched(c07Burst(c, "period-burst4", 4, false, vsched.Bounds{Preempt: 2, Tick: 0, Data: -1, Total: -1}, false))
